@@ -63,6 +63,16 @@ impl Packet {
 
         // Test with a stream with exactly the size to check border panics
         let packet = stream.split_to(fixed_header.frame_length());
+
+        // The frame is complete and already taken off the stream: a reader that runs out of
+        // bytes inside it found a malformed packet, it must not ask the caller to wait for more
+        Self::read_frame(fixed_header, packet).map_err(|e| match e {
+            Error::InsufficientBytes(_) => Error::MalformedPacket,
+            e => e,
+        })
+    }
+
+    fn read_frame(fixed_header: FixedHeader, packet: BytesMut) -> Result<Packet, Error> {
         let packet_type = fixed_header.packet_type()?;
 
         if fixed_header.remaining_len == 0 {
